@@ -226,8 +226,31 @@ impl Prop for C03 {
         }
     }
     fn gen(&self, rng: &mut Rng, _tier: Tier, _idx: u64) -> Case {
-        let mut inst = gen_instance(rng, &GenOpts { max_vars: 5, max_cons: 3, max_removed: 2, max_degree: 3, deps: true, hints: false });
-        let total = gen_state(rng, &inst);
+        // an eighth of the cases are linear and give integer and binary variables values a hair (2^-31) inside an
+        // integer, as a solver reports them: still exact in the reference arithmetic, and the value that must be
+        // recorded is the given one
+        let near_integer = rng.chance(1, 8);
+        let mut inst = gen_instance(rng, &GenOpts { max_vars: 5, max_cons: 3, max_removed: 2, max_degree: if near_integer { 1 } else { 3 }, deps: true, hints: false });
+        let mut total = gen_state(rng, &inst);
+        if near_integer {
+            let d = (0.5f64).powi(31);
+            for (id, val) in total.iter_mut() {
+                let Some(v) = inst.vars.iter().find(|v| v.id == *id) else { continue };
+                if !(v.kind == 1 || v.kind == 2) || rng.chance(1, 2) {
+                    continue;
+                }
+                let (lo, hi) = match (v.bound, v.kind) {
+                    (Some((l, u)), _) => (l.0, u.0),
+                    (None, 1) => (0.0, 1.0),
+                    (None, _) => (f64::NEG_INFINITY, f64::INFINITY),
+                };
+                if val.0 + d <= hi {
+                    val.0 += d;
+                } else if val.0 - d >= lo {
+                    val.0 -= d;
+                }
+            }
+        }
         let mut ids: Vec<u64> = total.iter().map(|t| t.0).collect();
         rng.shuffle(&mut ids);
         let nparts = 1 + rng.usize(3);
